@@ -22,7 +22,7 @@ import (
 	"github.com/luthersystems/elps/verifharness/vcommon"
 )
 
-const eventLimit = 400
+const eventLimit = 200
 
 // ---------- event log ----------
 
@@ -32,11 +32,11 @@ type event struct {
 	ID   string
 	N    int
 	// library call
-	Call                    bool
-	CtxLoc, Loc             string
-	Name, TrueLoc           string
-	Data                    []byte
-	Err                     error
+	Call          bool
+	CtxLoc, Loc   string
+	Name, TrueLoc string
+	Data          []byte
+	Err           error
 }
 
 type recLib struct {
@@ -54,15 +54,16 @@ func (r *recLib) LoadSource(ctx lisp.SourceContext, loc string) (string, string,
 // ---------- world: model + configuration of one materialised case ----------
 
 type world struct {
-	mode      string
-	m         *model
-	cwdReal   string
-	realRoot  string // "" when the configured root does not resolve to a directory
-	rootAbs   string // fs modes: absolute named root of the file system
-	rootLinks int
-	content   map[string]*Node // file content -> node
+	mode       string
+	m          *model
+	cwdReal    string
+	realRoot   string // "" when the configured root does not resolve to a directory
+	rootAbs    string // fs modes: absolute named root of the file system
+	rootLinks  int
+	content    map[string]*Node // file content -> node
 	nontrivial bool
 	rootCfgAbs bool
+	notes      int
 }
 
 func (w *world) isInside(n *Node) bool {
@@ -91,6 +92,9 @@ func (w *world) contentOf(n *Node) string {
 	mark := "OUTSIDE"
 	if w.isInside(n) {
 		mark = "INSIDE"
+	}
+	if w.mode == "cli" {
+		return cliContent(n, mark, w.m.base)
 	}
 	return fileContent(n, mark, w.m.base)
 }
@@ -128,13 +132,13 @@ func (w *world) variants(ctxLoc, loc string) (phys []string, lex []string) {
 }
 
 type verdict struct {
-	allowed    map[string]*Node // id -> inside file the location may denote
-	must       *Node            // plain relative location: this file has to be served
-	outside    bool             // some reading resolves to an existing path outside the root
-	sibling    bool             // ... inside the prefix-sibling
-	links      int              // max symbolic links crossed by a reading
-	enoent     bool             // no reading resolves at all
-	notFile    bool
+	allowed map[string]*Node // id -> inside file the location may denote
+	must    *Node            // plain relative location: this file has to be served
+	outside bool             // some reading resolves to an existing path outside the root
+	sibling bool             // ... inside the prefix-sibling
+	links   int              // max symbolic links crossed by a reading
+	enoent  bool             // no reading resolves at all
+	notFile bool
 }
 
 func (w *world) judge(ctxLoc, loc string) verdict {
@@ -195,8 +199,10 @@ func (w *world) judge(ctxLoc, loc string) verdict {
 
 func (w *world) keyPrefix() string {
 	switch w.mode {
-	case "dirfs":
-		return "dirfs-"
+	case "osroot":
+		return "osroot-"
+	case "cli":
+		return "cli-"
 	case "mapfs":
 		return "mapfs-"
 	}
@@ -230,6 +236,14 @@ func (w *world) checkCall(e event, ctx *vcommon.Ctx) (*Node, *vcommon.Failure) {
 		w.nontrivial = true
 	}
 	desc := fmt.Sprintf("mode=%s root=%q cwd=%q ctx=%q loc=%q", w.mode, w.rootAbsOrSpelling(), w.cwdReal, e.CtxLoc, e.Loc)
+	if feat != "" && (v.outside || v.sibling) && w.notes < 3 {
+		w.notes++
+		out := "served"
+		if e.Err != nil {
+			out = "refused: " + e.Err.Error()
+		}
+		ctx.Note(fmt.Sprintf("non-trivial load (%s, resolves outside=%v sibling=%v links=%d): ctx=%q loc=%q -> %s", feat, v.outside, v.sibling, v.links, e.CtxLoc, e.Loc, out))
+	}
 	if e.Err != nil {
 		if bytes.Contains(e.Data, []byte("OUTSIDE:")) {
 			return nil, vcommon.Failf(w.keyPrefix()+"escape/bytes-with-error", "%s: error %v returned together with outside bytes %q", desc, e.Err, e.Data)
@@ -439,7 +453,10 @@ func scratchDir() string {
 // ---------- the oracle ----------
 
 func checkCase(c Case, ctx *vcommon.Ctx) (fail *vcommon.Failure) {
-	if c.Mode != "rfs" && c.Mode != "dirfs" && c.Mode != "mapfs" {
+	if c.Mode == "dirfs" {
+		c.Mode = "osroot" // name used before the cmd wiring moved to os.Root
+	}
+	if c.Mode != "rfs" && c.Mode != "osroot" && c.Mode != "mapfs" && c.Mode != "cli" {
 		return nil
 	}
 	oldwd, err := os.Getwd()
@@ -468,7 +485,7 @@ func checkCase(c Case, ctx *vcommon.Ctx) (fail *vcommon.Failure) {
 		if r := w.m.resolve(w.cwdReal, rootCfg); r.Err == "" && r.Kind == "dir" {
 			w.realRoot = r.Path
 		}
-	case "dirfs":
+	case "osroot", "cli":
 		s := rootCfg
 		if !isAbs(s) {
 			s = w.cwdReal + "/" + s
@@ -527,30 +544,30 @@ func checkCase(c Case, ctx *vcommon.Ctx) (fail *vcommon.Failure) {
 		must(os.Chdir(w.cwdReal))
 	}
 
+	if c.Mode == "cli" {
+		return w.runCLI(c, ctx)
+	}
 	// the library under test, configured the way the anchored code does
 	var log []event
 	var inner lisp.SourceLibrary
 	switch c.Mode {
 	case "rfs":
 		inner = &lisp.RelativeFileSystemLibrary{RootDir: rootCfg}
-	case "dirfs":
-		abs, err := filepath.Abs(rootCfg) // cmd/run.go: filepath.Abs then os.DirFS
+	case "osroot":
+		// what cmd/run.go, cmd/debug.go and repl/repl.go configure:
+		// filepath.Abs, os.OpenRoot, FSLibrary over root.FS().  In-process
+		// twin of the "cli" sub-property (which runs the real binary).
+		abs, err := filepath.Abs(rootCfg)
 		must(err)
 		if abs != w.rootAbs {
 			panic(fmt.Sprintf("harness: model root %q != filepath.Abs %q", w.rootAbs, abs))
 		}
-		if os.Getenv("VERIF_C20_OSROOT") != "" {
-			// validation knob for proposed_fix_2: what cmd/run.go would
-			// configure after the fix
-			r, err := os.OpenRoot(abs)
-			if err != nil {
-				inner = &lisp.FSLibrary{FS: fstest.MapFS{}}
-			} else {
-				defer r.Close()
-				inner = &lisp.FSLibrary{FS: r.FS()}
-			}
+		r, err := os.OpenRoot(abs)
+		if err != nil {
+			inner = &lisp.FSLibrary{FS: fstest.MapFS{}} // the CLI exits: nothing is ever served
 		} else {
-			inner = &lisp.FSLibrary{FS: os.DirFS(abs)}
+			defer r.Close()
+			inner = &lisp.FSLibrary{FS: r.FS()}
 		}
 	case "mapfs":
 		inner = &lisp.FSLibrary{FS: mapfs}
@@ -721,9 +738,10 @@ func (w *world) checkOp(oi int, entry, opctx, loc string, log []event, limitHit 
 
 func TestCheck(t *testing.T) {
 	vcommon.Main(t, "C20",
-		vcommon.S("rfs", 24000, 600000, genCase("rfs"), checkCase),
-		vcommon.S("dirfs", 8000, 200000, genCase("dirfs"), checkCase),
-		vcommon.S("mapfs", 16000, 400000, genCase("mapfs"), checkCase),
+		vcommon.S("rfs", 12000, 600000, genCase("rfs"), checkCase),
+		vcommon.S("osroot", 4000, 200000, genCase("osroot"), checkCase),
+		vcommon.S("cli", 1600, 60000, genCase("cli"), checkCase),
+		vcommon.S("mapfs", 8000, 400000, genCase("mapfs"), checkCase),
 		vcommon.S("toctou", 160, 3200, genRace(), checkRace),
 	)
 }
